@@ -104,6 +104,9 @@ ROTS = [
     [0.0, 1.0, 0.0, 1.0, 0.0, 0.0, 0.0, 0.0, 1.0],
     [1.0, 0.0, 0.0, 0.0, 0.0, 1.0, 0.0, 1.0, 0.0],
     [0.0, 0.0, 1.0, 0.0, 1.0, 0.0, 1.0, 0.0, 0.0],
+    # direction cosines that need all their digits (30 and 20 degrees about z)
+    [0.8660254037844387, -0.49999999999999994, 0.0, 0.49999999999999994, 0.8660254037844387, 0.0, 0.0, 0.0, 1.0],
+    [0.9396926207859084, 0.3420201433256687, 0.0, -0.3420201433256687, 0.9396926207859084, 0.0, 0.0, 0.0, 1.0],
 ]
 
 KINDS = [
